@@ -88,7 +88,7 @@ mod k {
         kani::cover!(true, "every call returned");
     }
 
-    /// VERIF: {"p":"C19","tier":"quick","fns":["radv::config::parse_prefix","radv::config::parse_rdnss","radv::config::parse_dnssl","radv::config::parse_pref64","radv::config::parse_interface","radv::config::parse","radv::config::parse_domain","config::type_to_name"],"bounds":"each parser on the NON-empty sequence `[\"a\",\"b\"]` (e.g. `router-advertisements: { eth0: [a, b] }`)","oracle":"Err(InvalidConfig); never a panic","stubs":["alloc::fmt::format -> empty string (message text only)"],"covers":1,"unwind":6}
+    /// VERIF: {"p":"C19","tier":"thorough","fns":["radv::config::parse_prefix","radv::config::parse_rdnss","radv::config::parse_dnssl","radv::config::parse_pref64","radv::config::parse_interface","radv::config::parse","radv::config::parse_domain","config::type_to_name"],"bounds":"each parser on the NON-empty sequence `[\"a\",\"b\"]` (e.g. `router-advertisements: { eth0: [a, b] }`)","oracle":"Err(InvalidConfig); never a panic","stubs":["alloc::fmt::format -> empty string (message text only)"],"covers":1,"unwind":6}
     #[kani::proof]
     #[kani::unwind(6)]
     #[kani::stub(alloc::fmt::format, empty_format)]
